@@ -38,6 +38,8 @@ class Resolver:
         self.inline = inline
         self.cfg = None
         self.selfname = fn.params[0] if (fn.cls and fn.is_method and not fn.is_staticmethod and fn.params) else None
+        from .srcmodel import own_nodes as _own
+        self.globals_declared = {nm for x in _own(fn.node) if isinstance(x, ast.Global) for nm in x.names}
         self._collect()
         if self.flow:
             try:
@@ -65,7 +67,7 @@ class Resolver:
         always = {k for k, v in self.def_node.items() if v is None}
         IN = collections.defaultdict(set)
         OUT = collections.defaultdict(set)
-        params = {(p, -1) for p in self.fn.params}
+        params = {(p, -1) for p in self.fn.params} | {(g_, -1) for g_ in self.globals_declared}
         OUT[cfg.ENTRY] = set(params)
         work = list(cfg.kind)
         while work:
@@ -196,6 +198,8 @@ class Resolver:
         if isinstance(e, ast.Attribute):
             if self.selfname and isinstance(e.value, ast.Name) and e.value.id == self.selfname and e.value.id not in self.defs:
                 return ("field", e.attr)
+            if isinstance(e.value, ast.Name) and e.value.id in ("operator", "_operator") and e.attr in OPERATOR_MODULE and e.value.id not in self.defs and e.value.id not in self.fn.params:
+                return ("opfn", OPERATOR_MODULE[e.attr])  # operator.gt
             if isinstance(e.value, ast.Name) and e.value.id not in self.defs and e.value.id not in self.fn.params and not (_compenv and e.value.id in _compenv):
                 mp = self._module_alias_path(e.value.id)
                 if mp is not None:
@@ -212,6 +216,10 @@ class Resolver:
             # cast(T, x) is transparent
             if isinstance(f, ast.Name) and f.id == "cast" and len(e.args) == 2:
                 return T(e.args[1])
+            # getattr(x, "name", default): the attribute, or the default where it is missing
+            if isinstance(f, ast.Name) and f.id == "getattr" and len(e.args) == 3 and not e.keywords and isinstance(e.args[1], ast.Constant) and isinstance(e.args[1].value, str) \
+                    and "getattr" not in self.defs and "getattr" not in self.fn.params:
+                return ("phi", (("attr", T(e.args[0]), e.args[1].value), T(e.args[2])))
             ft = T(f)
             args = []
             for a in e.args:
@@ -493,6 +501,8 @@ class Resolver:
         alts = []
         if is_param and (reaching is None or -1 in reaching):
             alts.append(("param", self.fn.params.index(name), name))
+        elif name in self.globals_declared and (reaching is None or -1 in reaching):
+            alts.append(("name", name))  # a module global written here: what it held on entry
         for idx, (desc, path) in enumerate(defs):
             if reaching is not None and idx not in reaching:
                 continue
